@@ -1,14 +1,19 @@
 """C22 - Continuous factors respect their constraints, inputs and windows.
 
-Theorems: coq/theories/Properties/C22.v (about Out/Continuous.v): safety only.
-LEVEL note: the theorems and this check cover *safety* (every returned value set
-has one value per trial, satisfies every ContinuousConstraint, is computed from
-the same trial / the documented window of the same sequence, leaves the discrete
-columns alone).  *Liveness* of the resample loop of Block.sample_continuous (that
-it ever returns) depends on the user's distribution and is out of scope: the
-Python loop is unbounded (max_attempts only prints), the model takes explicit
-fuel, and the recording distributions of this harness raise GiveUp after a fixed
-number of calls; such cases are counted ("gave-up"), not judged.
+Theorems: coq/theories/Properties/C22.v (about Out/Continuous.v).
+*Safety*: every returned value set has one value per trial, satisfies every
+ContinuousConstraint, is computed from the same trial / the documented window of
+the same sequence, leaves the discrete columns alone.
+*Liveness relative to the draws* of the resample loop of Block.sample_continuous:
+the loop returns the FIRST attempt whose draws satisfy every ContinuousConstraint
+(C22_resample_live / _first / _returns_first), gives up iff every attempt was
+rejected (C22_resample_none), rejects only attempts that violate a constraint
+(C22_reject_sound).  Whether an acceptable attempt exists depends on the user's
+distribution (the hypothesis of those theorems).  The Python loop is unbounded
+(past max_attempts = 10000000 it only prints; the raise is commented out), the
+model takes explicit fuel = the bound of this harness, whose recording
+distributions raise GiveUp after a fixed number of calls; such cases are counted
+("gave-up"), not judged.
 
 Programs: an ir.py program (discrete part from gen_design.gen_program, shapes
 cross / multi / repeat, constraints restricted to AtMostKInARow / Exclude /
@@ -27,6 +32,12 @@ Correspondence (real code vs extracted Out/Continuous.v fed the logged results):
             (keys in order, every value), the number of _sample_continuous calls per
             experiment, the arguments of every call of every distribution function
   attempt   each _sample_continuous call (returned dict, calls) and _check_constraints verdict
+  verdicts  per experiment, the extracted ContinuousLive.attempt on the recorded draws of every attempt the
+            real loop made: accept / reject as the real _check_constraints said, all rejected but the last
+  scan      per experiment, ContinuousLive.scan (first non-rejected attempt of the stream, with spare fuel)
+            returns the values of the real loop's last attempt and the same attempt count
+  giveup    runs that gave up: on the draws of the completed attempts of the unfinished experiment the model
+            runs out of fuel and every verdict is reject (C22_resample_none)
   window    ContinuousFactorWindow.get_window_val on arbitrary (also degenerate) parameters
   checkdep  acceptance by Block.__check_dependency (constructor) of arbitrary dependency shapes
   error     designs the constructor accepts but whose sampling raises: same exception class
@@ -36,8 +47,11 @@ ContinuousConstraint predicate holds at every trial, each dependent value equals
 distribution function applied to the inputs recomputed from the returned dict (same
 trial; documented window of the same sequence with NaN where t < start, where the
 stride skips t, and for positions before trial 0), the discrete part equals what the
-sampler produced and is valid per docsem.doc_sem / Design/Sem.v.  Plus hand-built
-Merge / Repeat / Nest / MultiCrossBlock programs with continuous factors.
+sampler produced and is valid per docsem.doc_sem / Design/Sem.v; and "first acceptable
+attempt": the verdict of every recorded attempt is recomputed from the values it drew
+(predicates applied by this harness, not by _check_constraints) - no attempt before the
+last may be acceptable, the last must be, and the returned columns are its values.  Plus
+hand-built Merge / Repeat / Nest / MultiCrossBlock programs with continuous factors.
 No float is compared: values are Python ints (integer-valued floats from the
 cumulative mode are converted exactly), NaN is detected by x != x on a float and
 mapped to the token nan.
@@ -58,13 +72,19 @@ from common import Violation, sexp, Atom, parse_sexp, StrTok
 TITLE = "continuous factors: constraints, inputs, windows"
 LEVEL = "proof"
 DOMAINS = ['Cont', 'Design']
-LEVEL_NOTE = ("safety only: liveness of the resample loop of Block.sample_continuous depends on the distribution and is "
-              "out of scope (partial); the model takes explicit fuel, the harness distributions raise GiveUp")
+LEVEL_NOTE = ("safety, and liveness of the resample loop of Block.sample_continuous RELATIVE TO THE DRAWS (the first acceptable "
+              "attempt is returned; the loop gives up iff every attempt is rejected); that an acceptable attempt exists depends "
+              "on the distribution; the Python loop is unbounded (max_attempts only prints), the model takes explicit fuel, the "
+              "harness distributions raise GiveUp")
 
 NANVAL = -3            # what a "replace" function substitutes for NaN
 CALL_LIMIT_ATTEMPTS = 40
 THEOREMS = ["C22_continuous_spec", "C22_window_val_spec", "C22_window_val_shape", "C22_discrete_untouched",
-            "C22_dependency_check_partial", "C22_dependency_check_sound_refuted", "C22_dependency_check_complete_refuted"]
+            "C22_resample_scan", "C22_resample_live", "C22_resample_first", "C22_resample_returns_first", "C22_resample_none",
+            "C22_reject_sound", "C22_resample_raise", "C22_attempt_total", "C22_resample_live_wf", "C22_synthesize_live",
+            "C22_dependency_check_exact", "C22_dependency_check_direct", "C22_dependency_check_sound",
+            "C22_dependency_check_complete", "C22_dependency_check_rejects_derived",
+            "C22_dependency_check_sound_refuted", "C22_dependency_check_complete_refuted"]
 
 
 class GiveUp(Exception):
@@ -498,6 +518,58 @@ def search_experiment(program, cfs, ccs, T, e, pre):
     return bad
 
 
+def acceptable(program, ccs, out):
+    """Independent verdict on one recorded attempt: does every ContinuousConstraint predicate hold at every
+    trial of the values `out` this attempt drew?  None when a constrained factor was not sampled."""
+    fm = fmap(program)
+    d = dict(out)
+    for c in ccs:
+        names = [fm[f]["name"] for f in c["factors"]]
+        if not names or any(n not in d for n in names):
+            return None
+        fn = pred_fn(c["pred"], len(names))
+        for t in range(len(d[names[0]])):
+            if not fn(*[d[n][t] for n in names]):
+                return False
+    return True
+
+
+def first_acceptable(program, real, ccs):
+    """The loop must return the FIRST acceptable attempt (C22_resample_first / _returns_first / _reject_sound
+    on the real code): per experiment, no recorded attempt before the last satisfies every constraint, the
+    last does, and the returned continuous columns are its values.  Returns (failures, statistics)."""
+    bad = []
+    st = {"experiments": 0, "attempts": 0, "rejected": 0, "skipped": 0}
+    exps = real["rec"]["exps"]
+    for ei, atts in enumerate(exps):
+        if ei >= len(real["experiments"]) or not atts:
+            continue
+        if any(att["out"] is None for att in atts):
+            st["skipped"] += 1
+            continue
+        verdicts = [acceptable(program, ccs, att["out"]) for att in atts]
+        if any(v is None for v in verdicts):
+            st["skipped"] += 1
+            continue
+        st["experiments"] += 1
+        st["attempts"] += len(atts)
+        st["rejected"] += verdicts.count(False)
+        if True in verdicts[:-1]:
+            k = verdicts.index(True)
+            bad.append(("acceptable-attempt-discarded", "experiment %d: attempt %d of %d drew %r, which satisfies every "
+                        "ContinuousConstraint, but the loop resampled" % (ei, k, len(atts), atts[k]["out"])))
+        if not verdicts[-1]:
+            bad.append(("unacceptable-attempt-returned", "experiment %d: the loop stopped after attempt %d of %d whose values %r "
+                        "violate a ContinuousConstraint" % (ei, len(atts) - 1, len(atts), atts[-1]["out"])))
+        e = real["experiments"][ei]
+        for n, vs in atts[-1]["out"]:
+            if n not in e or len(e[n]) != len(vs) or not all(same(x, y) for x, y in zip(e[n], vs)):
+                bad.append(("returned-not-first-acceptable", "experiment %d: returned column %r = %r is not the first acceptable "
+                            "attempt's %r" % (ei, n, e.get(n), vs)))
+                break
+    return bad, st
+
+
 def oracle_valid(ds, seqs):
     try:
         return designrun.oracle_valid(ds, seqs)
@@ -577,6 +649,11 @@ def judge(program, strategy, n, seed, real=None):
         except Unsupported as ex:
             b = [("unsupported-value", "returned experiment holds a value outside int/NaN/str: %s" % ex)]
         bad += [(s, "experiment %d: %s" % (ei, w)) for s, w in b]
+    try:
+        fb, real["first"] = first_acceptable(program, real, ccs)
+        bad += fb
+    except Unsupported:
+        pass
     names = [f["name"] for f in program["factors"]]
     clash = len(set(names)) < len(names)      # duplicate factor names: reported as an observation (discrete-overwritten)
     if real["experiments"] and not clash:
@@ -931,6 +1008,11 @@ def corr_lines(case, real):
                       ("ok", want_d, want_a, list(built.log))))
         a = 0
         for ei, atts in enumerate(rec["exps"]):
+            if atts and ei < len(pre):
+                lines.append(("verdicts", sexp([Atom("verdicts"), T, pre[ei], fs, cs, a, len(atts), orc]),
+                              ("ok", [att["ok"] for att in atts])))
+                lines.append(("scan", sexp([Atom("scan"), T, pre[ei], fs, cs, len(atts) + 2, a, orc]),
+                              ("ok", canon_dict(dict(atts[-1]["out"])), a + len(atts))))
             for ai, att in enumerate(atts):
                 if ai < 2 or ai == len(atts) - 1:
                     lines.append(("attempt", sexp([Atom("sample"), T, pre[ei], fs, a, orc]),
@@ -943,20 +1025,49 @@ def corr_lines(case, real):
     return lines
 
 
+def giveup_lines(case, real):
+    """A run that gave up (the recording distributions stop after a fixed number of calls): on the draws of the
+    completed attempts of the unfinished experiment the model must run out of fuel (C22_resample_none: every
+    one of them is rejected), and no completed attempt may have been acceptable (independent verdict)."""
+    program = case["program"]
+    built, block, rec, T = real["built"], real["block"], real["rec"], real["T"]
+    if not rec["exps"] or not rec["pre"]:
+        return [], None
+    fs = [w_cfactor(program, fd) for fd in real_cfactors(program, block)]
+    cs = real_constraints(program, built, block)
+    orc = oracle_of_log(built.log)
+    a0 = sum(len(a) for a in rec["exps"][:-1])
+    done = [att for att in rec["exps"][-1] if att["out"] is not None and att["ok"] is not None]
+    if not done:
+        return [], None
+    pre = w_dict(canon_dict(dict(rec["pre"][-1])))
+    lines = [("giveup", sexp([Atom("scan"), T, pre, fs, cs, len(done), a0, orc]), ("error", "OutOfFuel")),
+             ("verdicts-giveup", sexp([Atom("verdicts"), T, pre, fs, cs, a0, len(done), orc]), ("ok", [att["ok"] for att in done]))]
+    ccs = used_cconstraints(program)
+    discarded = [k for k, att in enumerate(done) if acceptable(program, ccs, att["out"])]
+    return lines, (len(done), discarded)
+
+
 def compare(layer, out, want):
     if out.startswith("!"):
         return False
     r = parse_sexp(out)[0]
-    if layer == "error":
+    if layer in ("error", "giveup"):
         return r[0] == "err" and r[1] == want[1]
+    if layer == "verdicts-giveup":
+        return list(r) == ["reject"] * len(want[1]) and not any(want[1])
     if layer == "window":
         if want[0] == "error":
             return r[0] == "err" and r[1] == want[1]
         return r[0] == "ok" and p_input(r[1]) == want[1]
     if layer == "checkdep":
         return out == want
+    if layer == "verdicts":
+        return list(r) == ["accept" if ok else "reject" for ok in want[1]] and want[1][-1] and not any(want[1][:-1])
     if r[0] != "ok":
         return False
+    if layer == "scan":
+        return p_dict(r[1]) == want[1] and r[2] == want[2]
     if layer == "synth":
         ms, log = r[1], r[2]
         return ([p_dict(m[0]) for m in ms] == want[1] and [m[1] for m in ms] == want[2]
@@ -988,7 +1099,9 @@ def run(ctx, res):
     lines, expect, mism = [], [], []
     found = {}
     stats = {"ok": 0, "gave-up": 0, "rejected-by-constructor": 0, "error": 0, "resampled": 0, "attempts": 0,
-             "experiments": 0, "discrete-defect-not-c22": 0, "unsupported": 0}
+             "experiments": 0, "discrete-defect-not-c22": 0, "unsupported": 0,
+             "attempts-per-experiment": {}, "max-attempts": 0,
+             "first-acceptable": {"experiments": 0, "attempts": 0, "rejected": 0, "skipped": 0}}
     feats = {}
     observations = []
 
@@ -1027,6 +1140,11 @@ def run(ctx, res):
             for atts in real["rec"]["exps"]:
                 stats["attempts"] += len(atts)
                 stats["resampled"] += len(atts) > 1
+                hk = str(len(atts)) if len(atts) < 6 else "6+"
+                stats["attempts-per-experiment"][hk] = stats["attempts-per-experiment"].get(hk, 0) + 1
+                stats["max-attempts"] = max(stats["max-attempts"], len(atts))
+            for k, v in real.get("first", {}).items():
+                stats["first-acceptable"][k] += v
             if real.get("discrete_defect"):
                 stats["discrete-defect-not-c22"] += 1
             if len(res.samples) < 3 and nontrivial:
@@ -1049,6 +1167,19 @@ def run(ctx, res):
                     add(layer, line, want, ci)
             except Unsupported:
                 stats["unsupported"] += 1
+        elif st == "gave-up" and "rec" in real:
+            try:
+                glines, ginfo = giveup_lines(case, real)
+            except Unsupported:
+                glines, ginfo = [], None
+            for layer, line, want in glines:
+                add(layer, line, want, ci)
+            if ginfo is not None:
+                stats["gave-up-attempts-all-rejected"] = stats.get("gave-up-attempts-all-rejected", 0) + ginfo[0]
+                if ginfo[1]:
+                    note("c22:acceptable-attempt-discarded", "%s, %s: the run gave up although attempt %d of the unfinished "
+                         "experiment satisfied every ContinuousConstraint" % (describe(program), case["strategy"], ginfo[1][0]),
+                         dict(case, sig="c22:acceptable-attempt-discarded"), len(json.dumps(program)))
 
     # ---- hand-built combinator programs (search + correspondence)
     comb = {}
@@ -1136,6 +1267,7 @@ def run(ctx, res):
         res.layer(layer, ok)
         if not ok:
             mism.append((layer, cid, line[:400], out[:400], repr(want)[:400]))
+    stats["attempts-per-experiment"] = dict(sorted(stats["attempts-per-experiment"].items()))
     stats["features"] = dict(sorted(feats.items()))
     res.extra["generated"] = stats
     obs = {}
@@ -1146,7 +1278,8 @@ def run(ctx, res):
     res.extra["search_space"] = ("every experiment returned for the generated and hand-built programs: value counts, every "
                                  "ContinuousConstraint at every trial, every dependent value recomputed from the returned dict "
                                  "through the documented inputs / windows, discrete columns vs the sampler's output and vs "
-                                 "Design/Sem.v")
+                                 "Design/Sem.v; every recorded attempt of the resample loop: verdict recomputed from its draws, "
+                                 "first acceptable attempt = the returned one")
     res.extra["exhaustive"] = False
     for sig in sorted(found):
         _, what, replay = found[sig]
